@@ -325,14 +325,17 @@ def dimacsTriggers (q : Quirks) (cs : List Clause) : Bool :=
 
 structure QCirc where
   name : String
-  qubitNames : List String      -- `qubit_map.keys()` in insertion order
+  qubitMap : List (String × Nat)  -- `qubit_map.items()` in insertion order (names may share an index)
   numQubits : Nat
   gates : List AGate
   deriving Repr, Inhabited
 
-/-- `_selfqc.get_key_by_index(i)`: first key whose value is `i` (the map is `name ↦ position`
-for compiled functions) -/
-def keyOf (qc : QCirc) (i : Nat) : String := qc.qubitNames.getD i "?"
+/-- `_selfqc.get_key_by_index(i)`: `for key in reversed(qubit_map.keys())`, the **last** name
+mapped to `i` (the library raises when there is none; compiled circuits name every wire) -/
+def keyOf (qc : QCirc) (i : Nat) : String :=
+  match qc.qubitMap.reverse.find? (·.2 == i) with
+  | some p => p.1
+  | none => "?"
 
 /-- body line: `\t{g.__name__.lower()} {" ".join(qbs)}\n` (gates without parameter only:
 the compilers emit X/CX/CCX/MCX) -/
@@ -340,7 +343,7 @@ def gateLine (qc : QCirc) (g : AGate) : String :=
   "\t" ++ g.cls.name.toLower ++ " " ++ " ".intercalate (g.wires.map (keyOf qc)) ++ "\n"
 
 def gateDef (qc : QCirc) : String :=
-  "gate " ++ qc.name ++ " " ++ " ".intercalate qc.qubitNames ++ " {\n"
+  "gate " ++ qc.name ++ " " ++ " ".intercalate (qc.qubitMap.map (·.1)) ++ " {\n"
     ++ String.join ((qc.gates.filter (fun g => !g.cls.isNop)).map (gateLine qc)) ++ "}\n\n"
 
 def applyLine (qc : QCirc) : String :=
